@@ -845,6 +845,10 @@ func Compare(refTree *Tree, compTrees <-chan Trees, tips, comparetreeidentical b
 									common++
 								}
 							}
+							// Identical only if no bipartition is specific to the reference tree either
+							if sametree && total != common {
+								sametree = false
+							}
 						}
 					}
 				}
